@@ -370,10 +370,24 @@ func probesFor(u *universe, r *rand.Rand, ndocs int, light bool) *Probes {
 	}
 	r.Shuffle(len(pairs), func(i, j int) { pairs[i], pairs[j] = pairs[j], pairs[i] })
 	if len(pairs) > 6 {
-		pairs = pairs[:6]
+		// with many fields, the composite field (its locations name other fields) keeps two of the six probes
+		sort.SliceStable(pairs, func(i, j int) bool { return pairs[i][0] == "_all" && pairs[j][0] != "_all" })
+		na := 0
+		for na < len(pairs) && pairs[na][0] == "_all" {
+			na++
+		}
+		if na > 2 {
+			pairs = append(append([][2]string{}, pairs[:2]...), pairs[na:]...)
+		}
+		if len(pairs) > 6 {
+			pairs = pairs[:6]
+		}
 	}
 	for _, ft := range pairs {
 		ip := IterProbe{F: ft[0], T: ft[1], Flags: [3]bool{r.Intn(2) == 0, r.Intn(2) == 0, r.Intn(2) == 0}}
+		if ft[0] == "_all" && r.Intn(4) != 0 {
+			ip.Flags[2] = true // the composite field's locations (they name other fields) are the interesting detail
+		}
 		switch r.Intn(4) {
 		case 0:
 			ip.Ex = nil
@@ -978,6 +992,94 @@ func (l *Life) RandomScenario(p *GenProfile, steps int, tag string) {
 
 // LeanMergeScenario: three large lean segments (different term subsets), merged with drop patterns
 // chosen so that per-term cardinalities move across the 1024-hit chunk rules, then merged again.
+// VecChainScenario: an input that knows a vector field by name but has no index for it (a merged segment
+// whose vector documents were all deleted) sits before, between and after inputs that do have vectors.
+func (l *Life) VecChainScenario(tag string) {
+	l.Reset(1024, tag)
+	vdoc := func(id string, vec Ints, field string) Doc {
+		d := Doc{ID: B(id), Fields: []FieldInst{IDField(B(id))}}
+		if vec != nil {
+			d.Fields = append(d.Fields, FieldInst{Name: B(field), Kind: KindVec, Vec: vec, Dims: 2})
+		}
+		d.Fields = append(d.Fields, FieldInst{Name: B("a"), Typ: int('t'), Len: 1, Toks: []Tok{{T: B("x"), Fr: 1, Locs: []Loc{}}}})
+		d.Canon()
+		return d
+	}
+	rv := func() Ints { return Ints{l.r.Intn(9) - 4, l.r.Intn(9) - 4} }
+	a := l.Build([]Doc{vdoc("a0", rv(), "v2"), vdoc("a1", nil, "v2"), vdoc("a2", rv(), "v2")}, 1026)
+	b := l.Build([]Doc{vdoc("b0", rv(), "v2"), vdoc("b1", rv(), "v2"), vdoc("b2", nil, "v2")}, 1026)
+	c := l.Build([]Doc{vdoc("c0", nil, "v2"), vdoc("c1", rv(), "v2")}, 1026)
+	if a == nil || b == nil || c == nil {
+		return
+	}
+	none := Drop{Nil: true, Ds: Ints{}}
+	// m: the vector documents of a are gone, the field name stays
+	k, ok := l.Merge([]*hseg{a}, []Drop{{Ds: Ints{0, 2}}}, 1026)
+	if !ok {
+		return
+	}
+	m := l.Open(k)
+	if m == nil || m.zero {
+		return
+	}
+	for _, ins := range [][]*hseg{{m, b}, {b, m}, {b, m, c}, {m, c, b}} {
+		drops := make([]Drop, len(ins))
+		for i := range drops {
+			drops[i] = none
+			if l.r.Intn(3) == 0 {
+				drops[i] = Drop{Ds: Ints{l.r.Intn(ins[i].ndocs)}}
+			}
+		}
+		if k, ok := l.Merge(ins, drops, 1026); ok {
+			if h := l.Open(k); h != nil {
+				l.Close(h)
+			}
+		}
+	}
+	for _, h := range l.live() {
+		l.Close(h)
+	}
+}
+
+// WideScenario: a segment with more than 128 fields goes through every writer and reader once: built,
+// persisted, re-opened, merged with deletions (alone and with a second wide segment), merged again.
+func (l *Life) WideScenario(p *GenProfile, tag string) {
+	l.Reset(1024, tag)
+	some := func(n int) Drop {
+		ds := Ints{}
+		for d := 0; d < n; d++ {
+			if l.r.Intn(3) == 0 {
+				ds = append(ds, d)
+			}
+		}
+		if len(ds) == n && n > 0 {
+			ds = ds[:n-1]
+		}
+		return Drop{Ds: ds}
+	}
+	a := l.Build(GenBatch(l.r, p, 0), 1026)
+	if a == nil {
+		return
+	}
+	var oa *hseg
+	if k := l.Persist(a); l.files[k] != nil {
+		oa = l.Open(k)
+	}
+	b := l.Build(GenBatch(l.r, p, 100), 1026)
+	if oa != nil {
+		if k, ok := l.Merge([]*hseg{oa}, []Drop{some(oa.ndocs)}, 1026); ok {
+			if m := l.Open(k); m != nil && !m.zero && b != nil {
+				if k2, ok := l.Merge([]*hseg{b, m}, []Drop{some(b.ndocs), some(m.ndocs)}, 1026); ok {
+					l.Open(k2)
+				}
+			}
+		}
+	}
+	for _, h := range l.live() {
+		l.Close(h)
+	}
+}
+
 func (l *Life) LeanMergeScenario(p *GenProfile, tag string) {
 	lcms := []int{1024, 1024, 512}
 	l.Reset(lcms[l.r.Intn(len(lcms))], tag)
